@@ -24,6 +24,8 @@ type ScriptReader struct {
 	FailAt          int   // -1: never; otherwise return ErrInjected once pos == FailAt
 	FailWith        bool  // deliver the error together with the bytes that reach FailAt
 	Err             error // the sticky error delivered at FailAt (nil: ErrInjected)
+	FailOnce        bool  // the error is reported by ONE Read call only (like bufio.Reader); later reads go on with the remaining data
+	failed          bool
 	Closes          int
 	ReadsAfterClose int
 	pos             int
@@ -41,13 +43,16 @@ func (r *ScriptReader) Read(p []byte) (int, error) {
 	}
 	// The stream is Data[:limit] followed by the terminal condition term.
 	limit, term, with := len(r.Data), io.EOF, r.EOFWith
-	if r.FailAt >= 0 && r.FailAt <= len(r.Data) {
+	if r.FailAt >= 0 && r.FailAt <= len(r.Data) && !(r.FailOnce && r.failed) {
 		limit, term, with = r.FailAt, ErrInjected, r.FailWith
 		if r.Err != nil {
 			term = r.Err
 		}
 	}
 	if r.pos >= limit {
+		if term != io.EOF {
+			r.failed = true
+		}
 		return 0, term
 	}
 	want := len(p)
@@ -73,6 +78,9 @@ func (r *ScriptReader) Read(p []byte) (int, error) {
 	n := copy(p, r.Data[r.pos:end])
 	r.pos += n
 	if r.pos >= limit && with {
+		if term != io.EOF {
+			r.failed = true
+		}
 		return n, term
 	}
 	return n, nil
@@ -82,7 +90,7 @@ func (r *ScriptReader) Read(p []byte) (int, error) {
 func (r *ScriptReader) Close() error { r.Closes++; return nil }
 
 func (r *ScriptReader) String() string {
-	return fmt.Sprintf("src{len=%d chunks=%v eofWith=%v failAt=%d failWith=%v}", len(r.Data), r.Chunks, r.EOFWith, r.FailAt, r.FailWith)
+	return fmt.Sprintf("src{len=%d chunks=%v eofWith=%v failAt=%d failWith=%v failOnce=%v}", len(r.Data), r.Chunks, r.EOFWith, r.FailAt, r.FailWith, r.FailOnce)
 }
 
 // ReaderOnly hides Close (a source that is not an io.Closer).
